@@ -28,6 +28,23 @@ OPTIMIZERS = {
                                   "learning_rate": {"sched": "lin"},
                                   "preconditioning_compute_steps": 2},
                            "rep", SHAPES),
+    # scheduled (decaying) refresh interval, update stepped op by op: Python
+    # code of the transformation runs on every call, so anything it keeps
+    # outside the state pytree takes part
+    "ds_sched_decay_eager": ("ds", {"graft_type": 3,
+                                    "learning_rate": {"sched": "lin", "T": 4,
+                                                      "m": 0.125},
+                                    "decay_preconditioning_compute_steps":
+                                        True,
+                                    "end_preconditioning_compute_steps": 31,
+                                    "preconditioning_compute_steps": 1},
+                             "rep", SHAPES, {"jit": False}),
+    # jax_enable_x64: dtype promotion differs between weakly and strongly
+    # typed scalars there, and a serialized state only carries strong types
+    "ds_sched_x64": ("ds", {"graft_type": 3,
+                            "learning_rate": {"sched": "lin"},
+                            "decoupled_learning_rate": False},
+                     "rep", SHAPES, {"x64": True}),
     "ds_quant_pmap": ("ds", {"best_effort_memory_usage_reduction": True},
                       "pmap", SHAPES),
     "ds_compressed": ("ds", {"compression_rank": 1, "block_size": 8},
@@ -67,13 +84,15 @@ def plan(tier, seed):
       d = 2
     else:
       d = depth
+    opts = OPTIMIZERS[name][4] if len(OPTIMIZERS[name]) > 4 else {}
     tasks.append({"name": name, "opt": name, "depth": d,
                   # quick: fresh-process resume for three optimizers at crash
                   # points 0 and 1; thorough: all optimizers, points 0, 1, T
                   "cross_process": (tier != "quick" or name in (
                       "ds_full", "ds_sharded", "tf_sketchy")),
                   "cross_points": [0, 1] if tier == "quick" else [0, 1, d],
-                  "profile": {"x64": False}, "weight": 2 ** d})
+                  "profile": {"x64": bool(opts.get("x64"))},
+                  "weight": 2 ** d * (4 if opts.get("jit") is False else 1)})
   return {
       "tasks": tasks,
       "rule": "all histories over {gA,gB} up to depth T per optimizer; every "
@@ -96,12 +115,13 @@ class Machine:
   def __init__(self, spec):
     import jax
     import jax.numpy as jnp
-    fam, cfg, mode, shapes = spec
+    fam, cfg, mode, shapes = spec[:4]
+    opts = spec[4] if len(spec) > 4 else {}
     self.fam, self.mode, self.shapes = fam, mode, shapes
     from mc import ds
     self.params_np = ds.make_params(shapes)
     if fam == "ds":
-      self.runner = ds.Runner(cfg, shapes, mode)
+      self.runner = ds.Runner(cfg, shapes, mode, jit=opts.get("jit", True))
       self.init = self.runner.init
       self.step = self.runner.step
     else:
